@@ -13,9 +13,11 @@ Sentence of the property                                              theorem
   "operations on unknown or duplicate identifiers fail without        unknown_or_duplicate_fails, failed_ops_no_change
    altering the estimator"
   "time never moves backwards"                                        monotone_time, monotone_time_plain
+  (added) no operation ever panics or hits a MatrixError              estimator_never_panics_step, estimator_never_panics
 "every sequence of additions, removals, measurements, time progressions": `Op` / `run` below.
 -/
 import NtpVerif.Proofs.EstimatorNum
+import NtpVerif.Proofs.EstimatorTotal
 
 namespace NtpVerif.C42
 open NtpVerif.Estimator
@@ -252,6 +254,76 @@ theorem failed_ops_no_change [Num α] (s : Est α) (op : Op α) (e : Err) (h : a
     step s op = s := by
   simp [step, h]
 
+/-! #### no panics -/
+
+/-- **C42.estimator_never_panics_step** — on a well-formed state no operation (add / remove, time
+    progression, measurement, steer absorption) can fail with a panic (an `Index` / `IndexMut` assert, a
+    `usize` underflow in `update_indices`) or a `MatrixError` (`NotAVector`, `NotSquare`, `OutOfBounds`):
+    every index the code computes is in range and every shape check passes.  The only possible failures
+    are the documented ones (unknown / duplicate ids, both clocks external, non-monotonic time).
+    Pure index algebra: holds for every element type, whatever the arithmetic produces (NaN included). -/
+theorem estimator_never_panics_step [Num α] {s : Est α} (h : WF s) (op : Op α) (e : Err)
+    (he : apply s op = .error e) : e.isBug = false := by
+  cases op with
+  | addClock id off offU freq freqU w =>
+    simp only [apply] at he
+    cases hk : isKnown s id with
+    | true => rw [addClock_dup off offU freq freqU w hk] at he; cases he; rfl
+    | false =>
+      unfold isKnown at hk
+      simp only [Bool.or_eq_false_iff] at hk
+      obtain ⟨st', unc', heq, _⟩ := addClock_spec h off offU freq freqU w hk.2 hk.1
+      rw [heq] at he; cases he
+  | removeClock id =>
+    simp only [apply] at he
+    cases hf : s.clocks.find? (fun c => c.id == id) with
+    | none => rw [removeClock_unknown hf] at he; cases he; rfl
+    | some rem =>
+      obtain ⟨st', unc', heq, _⟩ := removeClock_spec h hf
+      rw [heq] at he; cases he
+  | addLink id d du dec =>
+    simp only [apply] at he
+    cases ha : isKnown s id.a with
+    | false => simp [addLink, ha] at he; subst he; rfl
+    | true =>
+      cases hb : isKnown s id.b with
+      | false => simp [addLink, ha, hb] at he; subst he; rfl
+      | true =>
+        cases hl : s.links.any (fun l => l.id == id) with
+        | true => simp [addLink, ha, hb, hl] at he; subst he; rfl
+        | false =>
+          obtain ⟨st', unc', heq, _⟩ := addLink_spec h d du dec ha hb hl
+          rw [heq] at he; cases he
+  | removeLink id =>
+    simp only [apply] at he
+    cases hf : s.links.find? (fun l => l.id == id) with
+    | none => rw [removeLink_unknown hf] at he; cases he; rfl
+    | some rem =>
+      obtain ⟨st', unc', heq, _⟩ := removeLink_spec h hf
+      rw [heq] at he; cases he
+  | addExt id =>
+    simp only [apply, addExternalClock] at he
+    split at he
+    · cases he; rfl
+    · split at he <;> cases he
+      rfl
+  | removeExt id =>
+    simp only [apply, removeExternalClock] at he
+    split at he <;> cases he
+    rfl
+  | progress t =>
+    simp only [apply] at he
+    rw [progressTime_noBug h t he]; rfl
+  | measure l f v u dl => exact measurement_noBug h l f dl v u he
+  | absorbFreq id d => rw [(absorb_noBug h id).1 d e he]; rfl
+  | absorbOffset id d => rw [(absorb_noBug h id).2.1 d e he]; rfl
+  | absorbSys id d => rw [(absorb_noBug h id).2.2 d e he]; rfl
+
+/-- **C42.estimator_never_panics** — over every operation history from the empty estimator. -/
+theorem estimator_never_panics [Num α] (t : Nat) (ops : List (Op α)) (op : Op α) (e : Err)
+    (he : apply (run (empty t : Est α) ops) op = .error e) : e.isBug = false :=
+  estimator_never_panics_step (layout_inv t ops) op e he
+
 /-! #### time -/
 
 /-- **C42.monotone_time** — `progress_time t` fails (with `NonMonotonicTimeProgression`) iff `t` lies
@@ -355,5 +427,7 @@ end NtpVerif.C42
 #print axioms NtpVerif.C42.added_clock_reads_given
 #print axioms NtpVerif.C42.unknown_or_duplicate_fails
 #print axioms NtpVerif.C42.failed_ops_no_change
+#print axioms NtpVerif.C42.estimator_never_panics_step
+#print axioms NtpVerif.C42.estimator_never_panics
 #print axioms NtpVerif.C42.monotone_time
 #print axioms NtpVerif.C42.monotone_time_plain
